@@ -686,12 +686,16 @@ class NPProxy:
     def sqrt(self, a, **kw):
         if _is_sym(a):
             return a.sqrt()
+        if isinstance(a, np.ndarray) and _isobj(a):
+            return _map(lambda e: e.sqrt() if _is_sym(e) else np.sqrt(e), a)
         return np.sqrt(a, **kw)
 
     def _scalar_uf(name):
         def f(self, a, **kw):
             if _is_sym(a):
                 return getattr(a, name)()
+            if isinstance(a, np.ndarray) and _isobj(a):
+                return _map(lambda e: getattr(e, name)() if _is_sym(e) else getattr(np, name)(e), a)
             return getattr(np, name)(a, **kw)
         return f
 
